@@ -4,6 +4,7 @@ import PycfModel.Model.Actions
 import PycfModel.Model.Expand
 import PycfModel.Model.Catalogue
 import PycfModel.Model.Resolver
+import PycfModel.Model.Template
 /-
 Line protocol driver: one JSON operation per input line, one JSON result per output line.
 Executes the implementation models (I); proves nothing.
@@ -80,6 +81,23 @@ def envOf (j : Json) : Except String Resolver.Env := do
   let cs := conds.filterMap fun (k, v) => match v with | .bool b => some (k, b) | _ => none
   pure ⟨params, mappings, cs⟩
 
+def declOf (j : Json) : Except String Template.ParamDecl := do
+  let t ← getStr j "type"
+  let d ← getJ j "default"
+  let n ← getBool j "noecho"
+  pure ⟨t, d, n⟩
+
+def declsOf (j : Json) : Except String (List (String × Template.ParamDecl)) := do
+  match j.getObjVal? "decls" with
+  | .ok (.arr ds) =>
+    ds.toList.mapM fun d =>
+      match d with
+      | .arr #[.str k, v] => do pure (k, ← declOf v)
+      | _ => .error "bad decl"
+  | _ => .error "decls missing"
+
+def outside : Json := Json.mkObj [("outside_domain", .bool true)]
+
 def runOp (j : Json) : Except String Json := do
   let op ← getStr j "op"
   match op with
@@ -96,6 +114,35 @@ def runOp (j : Json) : Except String Json := do
     match Resolver.Spec.resolve env e with
     | some v => pure (Json.mkObj [("value", ofJ v)])
     | none => pure (Json.mkObj [("outside_domain", .bool true)])
+  | "param" =>
+    let d ← declOf j
+    let p ← getJ j "provided"
+    match Template.refValue d p with
+    | none => pure outside
+    | some none => pure (Json.mkObj [("ref", .null), ("is_none", .bool true)])
+    | some (some v) => pure (Json.mkObj [("ref", ofJ v)])
+  | "tresolve" =>
+    let pseudo ← objMembers (← getJ j "pseudo")
+    let decls ← declsOf j
+    let mappings ← objMembers (← getJ j "mappings")
+    let conditions ← objMembers (← getJ j "conditions")
+    let resources ← objMembers (← getJ j "resources")
+    let extra ← objMembers (← getJ j "extra")
+    match Template.resolveT pseudo ⟨decls, mappings, conditions, resources⟩ extra with
+    | none => pure outside
+    | some r =>
+      pure (Json.mkObj [
+        ("params", ofJ (.obj r.params)),
+        ("conditions", ofJ (.obj (r.conditions.map fun (k, b) => (k, .bool b)))),
+        ("resources", ofJ (.obj r.resources))])
+  | "creds" =>
+    let md ← getJ j "metadata"
+    let r := match ← getJ? j "login_profile" with
+      | some lp => Template.hardcodedUser lp md
+      | none => Template.hardcodedMeta md
+    match r with
+    | some b => pure (Json.mkObj [("hardcoded", .bool b)])
+    | none => pure outside
   | "tokens" =>
     let t ← getStr j "text"
     let toks := Resolver.tokens t.toList
